@@ -89,6 +89,10 @@ func runLock(o *opts) {
 		{"init-again", []string{"init"}, 3, true, ""},
 		{"run-failing-stage", []string{"run", "@bad.yaml"}, 0, true, ""},
 		{"commit-missing-output", []string{"commit", "@bad.yaml"}, 0, true, ""},
+		// an entry in the way: the error chain contains EEXIST ("file exists")
+		{"checkout-obstructed", []string{"checkout", "@d.yaml"}, 0, true, "obstruct"},
+		{"checkout-copy-obstructed", []string{"checkout", "--copy", "@d.yaml"}, 0, true, "obstruct"},
+		{"pull-obstructed", []string{"pull", "@d.yaml"}, 2, true, "obstruct"},
 	}
 	var cases []string
 	id := 0
@@ -122,7 +126,16 @@ func runLock(o *opts) {
 				if c.name == "init-again" && cwd != "" {
 					continue // init in a sub-directory creates a nested project: not this property
 				}
+				if c.stdin == "obstruct" {
+					// a different regular file where the committed artifact's link was
+					os.Remove(filepath.Join(p.Root, "data.txt"))
+					must(os.WriteFile(filepath.Join(p.Root, "data.txt"), []byte("edited by the user\n"), 0o644))
+				}
 				res := p.dud(cwd, args...)
+				if c.stdin == "obstruct" {
+					os.Remove(filepath.Join(p.Root, "data.txt"))
+					p.dud("", "checkout", "d.yaml")
+				}
 				_, err := os.Lstat(lockPath)
 				lockAfter := err == nil
 				os.Remove(lockPath)
